@@ -558,6 +558,7 @@ func c08EncoderState(c *Ctx, p *Program) {
 	}
 	c.Table("tables/animstate.txt")
 	c08CommitState(c, p, rows)
+	c08CommitRect(c, p)
 	c08CanvasProvenance(c, p)
 	c08CandidateConsistency(c, p)
 	c08FrameNormalise(c, p)
@@ -759,4 +760,135 @@ func c08FrameNormalise(c *Ctx, p *Program) {
 		}
 	}
 	c.Floor("frame-normalise", n, 1)
+}
+
+// E4 commit-rect: the rectangle an AnimEncoder method remembers in a receiver field after handing
+// a frame to the muxer is the rectangle the frame was placed at: when the FrameOptions literal of
+// the AddFrame call takes OffsetX / OffsetY from a rectangle value R, every rectangle-typed
+// receiver field stored after the call in that function is stored from the same R. (The next
+// frame's dispose-to-background candidate is simulated on the remembered rectangle, while the
+// decoder clears the rectangle that was written.)
+func c08CommitRect(c *Ctx, p *Program) {
+	c.Rule("commit-rect: at every AddFrame call of an AnimEncoder method whose FrameOptions take the frame offset from a rectangle R, the rectangle remembered afterwards in a receiver field (the previous frame's rectangle) is R itself")
+	isRect := func(t types.Type) bool {
+		n, ok := t.(*types.Named)
+		return ok && n.Obj().Pkg() != nil && n.Obj().Pkg().Path() == "image" && n.Obj().Name() == "Rectangle"
+	}
+	// base of  R.Min.X  (value or address form)
+	var rectBase func(v ssa.Value, depth int) ssa.Value
+	rectBase = func(v ssa.Value, depth int) ssa.Value {
+		if depth > 6 {
+			return nil
+		}
+		switch t := v.(type) {
+		case *ssa.UnOp:
+			if t.Op == token.MUL {
+				if isRect(t.Type()) {
+					return t.X // load of a rectangle variable: the variable
+				}
+				return rectBase(t.X, depth+1)
+			}
+		case *ssa.FieldAddr:
+			if pt, ok := t.X.Type().Underlying().(*types.Pointer); ok && isRect(pt.Elem()) {
+				return t.X
+			}
+			return rectBase(t.X, depth+1)
+		case *ssa.Field:
+			if isRect(t.X.Type()) {
+				return t.X
+			}
+			return rectBase(t.X, depth+1)
+		}
+		return nil
+	}
+	n := 0
+	for _, fn := range p.SrcFuncs() {
+		if !recvNamedIs(fn, "AnimEncoder") || fn.Blocks == nil {
+			continue
+		}
+		for _, b := range fn.Blocks {
+			for _, in := range b.Instrs {
+				call, ok := in.(*ssa.Call)
+				if !ok || !isMuxAddFrame(call.Call.StaticCallee()) || len(call.Call.Args) < 3 {
+					continue
+				}
+				opt, ok := call.Call.Args[2].(*ssa.Alloc)
+				if !ok || opt.Referrers() == nil {
+					continue
+				}
+				var off ssa.Value
+				for _, r := range *opt.Referrers() {
+					fa, ok := r.(*ssa.FieldAddr)
+					if !ok || specFieldID(fieldNameOf(fa.X.Type(), fa.Field)) != "x" || fa.Referrers() == nil {
+						continue
+					}
+					for _, rr := range *fa.Referrers() {
+						if st, ok := rr.(*ssa.Store); ok && st.Addr == ssa.Value(fa) {
+							off = st.Val
+						}
+					}
+				}
+				if off == nil {
+					continue
+				}
+				base := rectBase(off, 0)
+				if base == nil {
+					continue
+				}
+				// rectangle stores to receiver fields in blocks reachable from the call
+				reach := map[*ssa.BasicBlock]bool{}
+				var walk func(x *ssa.BasicBlock)
+				walk = func(x *ssa.BasicBlock) {
+					for _, s := range x.Succs {
+						if !reach[s] {
+							reach[s] = true
+							walk(s)
+						}
+					}
+				}
+				reach[b] = true
+				walk(b)
+				for _, b2 := range fn.Blocks {
+					if !reach[b2] {
+						continue
+					}
+					for _, in2 := range b2.Instrs {
+						st, ok := in2.(*ssa.Store)
+						if !ok || !isRect(st.Val.Type()) {
+							continue
+						}
+						f, ok := recvFieldOf(fn, st.Addr)
+						if !ok {
+							continue
+						}
+						if b2 == b {
+							// same block: only stores after the call
+							after := false
+							for _, x := range b.Instrs {
+								if x == in {
+									after = true
+								}
+								if x == in2 {
+									break
+								}
+							}
+							if !after {
+								continue
+							}
+						}
+						var sb ssa.Value = st.Val
+						if u, ok := st.Val.(*ssa.UnOp); ok && u.Op == token.MUL {
+							sb = u.X
+						}
+						n++
+						c.Func(FnName(fn))
+						c.Check(sb == base, "commit-rect", fmt.Sprintf("%s:%s", fn.Name(), f), p.Pos(st.Pos()),
+							"the remembered rectangle is the one whose origin was given to the muxer ("+p.ExprText(st.Val.Pos())+")",
+							fmt.Sprintf("%s places the frame at the origin of one rectangle (%s) but remembers another (%s) in AnimEncoder.%s: the next frame's dispose-to-background candidate is simulated on a rectangle the decoder does not clear", fn.Name(), p.ExprText(off.Pos()), p.ExprText(st.Val.Pos()), f))
+					}
+				}
+			}
+		}
+	}
+	c.Floor("commit-rect", n, 1)
 }
